@@ -9,7 +9,7 @@ PROP = "C07"
 
 
 def units(tier, seed):
-    return joint.units(tier, seed, delim_in_prefix=True)
+    return joint.units(tier, seed, delim_in_prefix=True, hook=True)
 
 
 def outcome(f, *a, **k):
